@@ -12,6 +12,16 @@ CONFIGS = [{"mode": "none", "fail": None}, {"mode": "import_error", "fail": None
            {"mode": "solver_error", "fail": "all"}]
 
 
+def configs_for(case, limit=8000):
+    """Solver configurations to run: all three, except on very large candidate sets where only the CBC
+    configuration is run - GLPK_MI (the fallback) can need minutes on 10^4 boolean variables, which is a
+    cost of the fallback solver, not something these properties speak about."""
+    prod = 1
+    for _, u in case["continuum"]["annotators"]:
+        prod *= len(u) + 1
+    return CONFIGS if prod <= limit else CONFIGS[:1]
+
+
 def gen_align_case(ch, *, max_annot=4, max_units=4, max_total=12, max_candidates=3000, allow_none_label=False,
                    families=None, min_annot=2):
     for _ in range(50):
